@@ -111,6 +111,9 @@ def programs(tier: str):
     for n in (5, 9, 17, 33, 40, 70) if tier == "quick" else (5, 9, 17, 33, 34, 40, 65, 70, 100):
         for pattern in ("one-long", "all-long", "alternating", "last-long"):
             yield {"many": n, "pattern": pattern}
+    for form in FINE_TIMEOUTS:
+        for delta in (-2048, -3, -1, 1, 3, 2048):
+            yield {"fine": form, "delta": delta}
     # two overlapping calls through one wrapped function, each with its own deadline
     for da in (1, 3):
         for db in (1, 3):
@@ -120,6 +123,61 @@ def programs(tier: str):
 
 def explore_config(tier: str, program) -> dict:
     return {}
+
+
+FINE_TIMEOUTS = {
+    "odd": 2.0 + 1 / 1024,  # not a whole number of milliseconds
+    "tiny": 1 / 1024 + 1 / 8192,
+    "huge": float(2**20) + 0.5,
+    "int": 3,
+}
+
+
+def _fine(program, ch: Chooser) -> Result:
+    """deadlines off the millisecond grid / tiny / huge / given as int: the function finishing just
+    before the deadline gives its value at that instant, just after it times out AT the deadline"""
+    tf = FINE_TIMEOUTS[program["fine"]]
+    d = float(tf) + program["delta"] * (float(tf) / 4096)
+    w = World(ch)
+    viols: list[dict] = []
+    try:
+        seen: dict = {}
+
+        @timeout(tf)
+        async def fn():
+            try:
+                await asyncio.sleep(d)
+                return "v"
+            except asyncio.CancelledError:
+                seen["cancelled"] = now() - START
+                raise
+
+        out: dict = {}
+
+        async def caller():
+            try:
+                out["r"] = ("value", await fn(), now() - START)
+            except TimeoutError:
+                out["r"] = ("timeout", None, now() - START)
+            except BaseException as exc:  # noqa: BLE001
+                out["r"] = ("other", type(exc).__name__, now() - START)
+
+        t = w.task(caller(), name="caller")
+        hang = False
+        try:
+            w.run()
+        except Livelock:
+            hang = True
+        want = ("value", "v", d) if d < float(tf) else ("timeout", None, float(tf))
+        if hang or not t.done():
+            viols.append(viol("termination", f"fine/{program['fine']}/hangs", "the call terminates", "pending"))
+        elif out.get("r") != want:
+            viols.append(viol("outcome", f"fine/{program['fine']}/{'before' if d < float(tf) else 'after'}-deadline", list(want), list(out.get("r", ())), timeout=tf, duration=d))
+        elif want[0] == "timeout" and "cancelled" not in seen:
+            viols.append(viol("cancelled-after-timeout", f"fine/{program['fine']}", "the function observed the cancellation", "it did not"))
+        return Result(f"fine/{program['fine']}/{program['delta']}", True, viols, {"out": list(out.get("r", ())), "timeout": tf, "duration": d})
+    finally:
+        w.close()
 
 
 def _many(program, ch: Chooser) -> Result:
@@ -290,6 +348,8 @@ def execute(program, ch: Chooser) -> Result:  # noqa: C901, PLR0912, PLR0915
         return _pair(program, ch)
     if "many" in program:
         return _many(program, ch)
+    if "fine" in program:
+        return _fine(program, ch)
     if "loops" in program or "stacked" in program:
         return _sequential(program, ch)
     d, kind, tc, batch = program["d"], program["kind"], program["tc"], program["batch"]
